@@ -5,8 +5,9 @@ import Proofs.Store.MultiDisk
 Model (`PocketModel/Store/NodeDB.lean`): `rootmulti.Store.Commit` as the list of atomic DB writes
 `[batch(substore σ₁), …, batch(substore σₙ), batch{s/<v+1>, s/latest}]` (`commitMS`, `DWrite`), a crash
 after the `k`-th write (`crashDisk`), recovery = `LoadLatestVersion` on a fresh object (`openMS` →
-`loadMS` → `loadStore` → `loadVersion`, with its quirks: `versions` filled with every root on disk,
-target 0 = latest on disk), re-execution = the same block + `Commit` (`SaveVersion` with its
+`loadMS` → `loadStore`/`loadStoreZero` → `loadVersion`, with its quirks: `versions` filled with every root on
+disk, target 0 = latest on disk; since repo commit 2a0e88a `LoadVersion(0)` rolls back substores that come back
+with a non-zero version), re-execution = the same block + `Commit` (`SaveVersion` with its
 "version exists ∧ same hash ⇒ no-op" branch).  A single `Batch.Write` is atomic (assumed).
 `H` is `tmhash.Sum` (parameter), `S`/`Inj` as in C04/C08.
 -/
@@ -62,17 +63,17 @@ theorem reachable (hH : HashOK H) (S : Tree → Prop) (hi : Inj H S) (names : Li
     ∃ s0 s ids, openMS H (freshDisk names) names = some s0 ∧
       runMS H s0 (blocks.map fun b => (b.1, fullBlock names b.2)) = some (s, ids) ∧
       GoodMS H S names (histsAfter (fun _ => []) blocks) blocks.length s := by
-  obtain ⟨s0, h0, g0⟩ := openMS_fresh_good (H := H) S names hnd
+  obtain ⟨s0, h0, g0⟩ := openMS_fresh_good hH S hi names hnd
   obtain ⟨s, ids, hrun, g, _⟩ := runMS_good hH hi blocks _ 0 s0 g0 hb
   exact ⟨s0, s, ids, h0, hrun, by simpa using g⟩
 
-/-- **crash_recover_state** (`k ≥ 1`).  The commit of a legal block performs `|order|+1` atomic
-writes.  After a crash behind any `j` of them, `LoadLatestVersion` on a fresh object succeeds and
-shows: while `j ≤ |order|` (final batch not written) the *previous* commit id and every substore on
-version `k` with exactly the tree committed at `k`; for `j = |order|+1` the new commit id and the new
-trees. -/
+/-- **crash_recover_state** (every height, including the very first commit).  The commit of a legal block
+performs `|order|+1` atomic writes.  After a crash behind any `j` of them, `LoadLatestVersion` on a fresh
+object succeeds and shows: while `j ≤ |order|` (final batch not written) the *previous* commit id and every
+substore on version `k` with exactly the tree committed at `k` (empty at `k = 0`: `LoadVersion(0)` discards
+what the interrupted first commit left); for `j = |order|+1` the new commit id and the new trees. -/
 theorem crash_recover_state (hH : HashOK H) (S : Tree → Prop) (hi : Inj H S) (names : List RootMulti.Name)
-    (hs : RootMulti.Name → List (Option Tree)) (k : Nat) (s : MStore) (g : GoodMS H S names hs k s) (hk : 1 ≤ k)
+    (hs : RootMulti.Name → List (Option Tree)) (k : Nat) (s : MStore) (g : GoodMS H S names hs k s)
     (nx : RootMulti.Name → Option Tree) (order : List RootMulti.Name) (ho : IsOrder names order)
     (hstep : ∀ n ∈ names, StepOK S k (lastOf (hs n)) (nx n)) :
     ∃ s' cid ws, commitMS H order (s.applyBlock (fullBlock names nx)) = some (s', cid, ws) ∧
@@ -87,36 +88,46 @@ theorem crash_recover_state (hH : HashOK H) (S : Tree → Prop) (hi : Inj H S) (
   have hl : ∀ n ∈ names, (hs n).length = k := fun n hn => by obtain ⟨_, _, _, _, h⟩ := g.tree n hn; exact h
   refine ⟨s', _, ws, hc, hlen, ?_, ?_⟩
   · intro j hj
-    obtain ⟨ci, hci', hv, hopen⟩ := recover_state hH nx order j (hcrash j hj) hk hl
-    refine ⟨_, hopen, ?_, ?_⟩
-    · rw [g.lcid]
-      have hk0 : ¬ k = 0 := by omega
-      simp only [hk0, if_false]
-      have hsame : (crashDisk s.disk ws j).cinfos = s.cinfos := by
-        have := crashDisk_stores s.disk order (fun _ => ({} : NDB)) (.final 0 ⟨0, []⟩) j hj
-        -- the store batches do not touch the commit infos
-        unfold crashDisk
-        have key : ∀ (l : List DWrite) (d : Disk), (∀ w ∈ l, ∃ n db, w = DWrite.store n db) → (l.foldl Disk.apply d).cinfos = d.cinfos := by
-          intro l
-          induction l with
-          | nil => intro d _; rfl
-          | cons w l ih =>
-            intro d hw
-            obtain ⟨n, db, rfl⟩ := hw w List.mem_cons_self
-            rw [List.foldl_cons, ih _ (fun w' hw' => hw w' (List.mem_cons_of_mem _ hw'))]
-            rfl
-        apply key
-        intro w hw
-        obtain ⟨s'', dbOf, hc', _⟩ := commitMS_good hH hi g nx order ho hstep
-        rw [hc] at hc'; cases hc'
-        rw [List.take_append_of_le_length (by simpa using hj)] at hw
-        obtain ⟨n, _, rfl⟩ := List.mem_map.mp (List.mem_of_mem_take hw)
-        exact ⟨n, _, rfl⟩
-      rw [hsame] at hci'
-      simp [hci']
-    · intro n hn
-      refine ⟨recovered ((crashDisk s.disk ws j).storeDB n) k (lastOf (hs n)), ?_, rfl, rfl⟩
-      rw [aget_map_names (fun n => recovered ((crashDisk s.disk ws j).storeDB n) k (lastOf (hs n))) names n, if_pos hn]
+    by_cases hk : 1 ≤ k
+    · obtain ⟨ci, hci', hv, hopen⟩ := recover_state hH nx order j (hcrash j hj) hk hl
+      refine ⟨_, hopen, ?_, ?_⟩
+      · rw [g.lcid]
+        have hk0 : ¬ k = 0 := by omega
+        simp only [hk0, if_false]
+        have hsame : (crashDisk s.disk ws j).cinfos = s.cinfos := by
+          unfold crashDisk
+          have key : ∀ (l : List DWrite) (d : Disk), (∀ w ∈ l, ∃ n db, w = DWrite.store n db) → (l.foldl Disk.apply d).cinfos = d.cinfos := by
+            intro l
+            induction l with
+            | nil => intro d _; rfl
+            | cons w l ih =>
+              intro d hw
+              obtain ⟨n, db, rfl⟩ := hw w List.mem_cons_self
+              rw [List.foldl_cons, ih _ (fun w' hw' => hw w' (List.mem_cons_of_mem _ hw'))]
+              rfl
+          apply key
+          intro w hw
+          obtain ⟨s'', dbOf, hc', _⟩ := commitMS_good hH hi g nx order ho hstep
+          rw [hc] at hc'; cases hc'
+          rw [List.take_append_of_le_length (by simpa using hj)] at hw
+          obtain ⟨n, _, rfl⟩ := List.mem_map.mp (List.mem_of_mem_take hw)
+          exact ⟨n, _, rfl⟩
+        rw [hsame] at hci'
+        simp [hci']
+      · intro n hn
+        refine ⟨recovered ((crashDisk s.disk ws j).storeDB n) k (lastOf (hs n)), ?_, rfl, rfl⟩
+        rw [aget_map_names (fun n => recovered ((crashDisk s.disk ws j).storeDB n) k (lastOf (hs n))) names n, if_pos hn]
+    · -- the very first commit: nothing has been committed, LoadVersion(0) discards the debris
+      have hk0 : k = 0 := by omega
+      subst hk0
+      obtain ⟨rec, hopen, grec, hst⟩ := openMS_zero hH hi (hcrash j hj)
+      refine ⟨rec, hopen, ?_, ?_⟩
+      · rw [grec.lcid, g.lcid]; simp
+      · intro n hn
+        obtain ⟨t, ht, hv, hr, _⟩ := hst n hn
+        refine ⟨t, ht, by simpa using hv, ?_⟩
+        have : hs n = [] := List.eq_nil_of_length_eq_zero (hl n hn)
+        rw [hr, this]; rfl
   · obtain ⟨ci, hci', hopen⟩ := openMS_good hH hfull (by omega)
     have e : ((k + 1 : Nat) : Int) = (k : Int) + 1 := by push_cast; rfl
     rw [e] at hci' hopen
@@ -131,12 +142,12 @@ theorem crash_recover_state (hH : HashOK H) (S : Tree → Prop) (hi : Inj H S) (
       rw [histAt_append, hl n hn]
       simp
 
-/-- **crash_reexecute_hash** (`k ≥ 1`).  From the store recovered after a crash behind any `j ≤ |order|`
-writes, re-executing the block and committing — in any iteration order — succeeds, reports version `k+1`
-with the commit hash of the uninterrupted run, and leaves a good multistore for the extended history
-(so the following blocks also reproduce the uninterrupted run, by `reachable`'s induction step). -/
+/-- **crash_reexecute_hash** (every height).  From the store recovered after a crash behind any
+`j ≤ |order|` writes, re-executing the block and committing — in any iteration order — succeeds, reports
+version `k+1` with the commit hash of the uninterrupted run, and leaves a good multistore for the extended
+history (so the following blocks also reproduce the uninterrupted run, by `reachable`'s induction step). -/
 theorem crash_reexecute_hash (hH : HashOK H) (S : Tree → Prop) (hi : Inj H S) (names : List RootMulti.Name)
-    (hs : RootMulti.Name → List (Option Tree)) (k : Nat) (s : MStore) (g : GoodMS H S names hs k s) (hk : 1 ≤ k)
+    (hs : RootMulti.Name → List (Option Tree)) (k : Nat) (s : MStore) (g : GoodMS H S names hs k s)
     (nx : RootMulti.Name → Option Tree) (order order' : List RootMulti.Name) (ho : IsOrder names order)
     (ho' : IsOrder names order') (hstep : ∀ n ∈ names, StepOK S k (lastOf (hs n)) (nx n)) :
     ∃ s' cid ws, commitMS H order (s.applyBlock (fullBlock names nx)) = some (s', cid, ws) ∧
@@ -148,45 +159,73 @@ theorem crash_reexecute_hash (hH : HashOK H) (S : Tree → Prop) (hi : Inj H S) 
   have hok : ∀ n ∈ names, HistOK S (hs n) := fun n hn => by obtain ⟨_, _, _, h, _⟩ := g.tree n hn; exact h
   refine ⟨s', _, ws, hc, ?_⟩
   intro j hj
-  obtain ⟨ci, hci', hv, hopen⟩ := recover_state hH nx order j (hcrash j hj) hk hl
-  obtain ⟨s'', ws', hre, g''⟩ := reexecute hH hi nx order order' ho ho' j (hcrash j hj) hk hl hok hstep ci hv
-  exact ⟨_, s'', ws', hopen, hre, g''⟩
+  by_cases hk : 1 ≤ k
+  · obtain ⟨ci, hci', hv, hopen⟩ := recover_state hH nx order j (hcrash j hj) hk hl
+    obtain ⟨s'', ws', hre, g''⟩ := reexecute hH hi nx order order' ho ho' j (hcrash j hj) hk hl hok hstep ci hv
+    exact ⟨_, s'', ws', hopen, hre, g''⟩
+  · have hk0 : k = 0 := by omega
+    subst hk0
+    obtain ⟨rec, hopen, grec, _⟩ := openMS_zero hH hi (hcrash j hj)
+    have hnil : ∀ n ∈ names, hs n = [] := fun n hn => List.eq_nil_of_length_eq_zero (hl n hn)
+    have hstep' : ∀ n ∈ names, StepOK S (0 : Nat) (lastOf ((fun _ => ([] : List (Option Tree))) n)) (nx n) := by
+      intro n hn
+      have := hstep n hn
+      rw [hnil n hn] at this
+      exact this
+    obtain ⟨s'', dbOf, hre, g'', _⟩ := commitMS_good hH hi grec nx order' ho' hstep'
+    rw [nextCI_hash_order ho' ho nx 0] at hre
+    refine ⟨rec, s'', _, hopen, hre, ?_⟩
+    exact g''.congr (fun n hn => by simp [hnil n hn])
 
-/-! ## The first commit (version 0 → 1) is different
+/-! ## Historical: the defect of the code before repo commit 2a0e88a
 
-`rootmulti.LoadVersion(0)` loads every substore with the zero `CommitID`, and
-`MutableTree.LoadVersion(0)` means "the latest version on disk".  If the node dies between two
-substore batches of the very first commit, the substores already saved come back at version 1,
-holding block-1 data, under a multistore that reports version 0; re-executing block 1 saves them as
-version 2 with new node versions, hence another app hash.  Concrete witness (`H = id`, which has no
-collisions at all): two substores `a`, `b`; block 1 sets one key in `a`. -/
+Before the fix `rootmulti.LoadVersion(0)` loaded every substore with the zero `CommitID` and kept what
+`MutableTree.LoadVersion(0)` ("the latest version on disk") returned.  If the node died between two
+substore batches of the very first commit, the substores already saved came back at version 1, holding
+block-1 data, under a multistore that reported version 0; re-executing block 1 saved them as version 2
+with new node versions, hence another app hash.  `openMSUnfixed` is that old recovery; the witness below
+(`H = id`, collision-free) is the counterexample that made `1 ≤ k` a hypothesis of the two theorems above
+before the fix.  With the fixed `openMS` the same scenario recovers (second theorem). -/
 
 def nA : RootMulti.Name := [97]
 def nB : RootMulti.Name := [98]
 def disk0 : Disk := { stores := [(nA, {}), (nB, {})] }
 /-- Block 1 as executed on the empty store: one new leaf of version 1 in `a`. -/
 def block1 : DBlock := [(nA, some (.leaf [1] [1] 1)), (nB, none)]
-/-- Block 1 as re-executed on the recovered store whose substore `a` is at version 1 holding that
-leaf: `recursiveSet` replaces the leaf by `NewNode(key, value, tree.version+1)`, i.e. version 2. -/
+/-- Block 1 as re-executed on a store whose substore `a` is at version 1 holding that leaf:
+`recursiveSet` replaces the leaf by `NewNode(key, value, tree.version+1)`, i.e. version 2. -/
 def block1' : DBlock := [(nA, some (.leaf [1] [1] 2)), (nB, none)]
+
+/-- `LoadLatestVersion` of the code before 2a0e88a on a disk without any commit info. -/
+def openMSUnfixed (d : Disk) (names : List RootMulti.Name) : Option MStore :=
+  match names.mapM (fun n => (loadStore (d.storeDB n) 0).map fun t => (n, t)) with
+  | none => none
+  | some stores => some ⟨{}, stores, d.cinfos, d.latest⟩
 
 /-- The uninterrupted first commit. -/
 def first : Option (MStore × CID × List DWrite) :=
   (openMS id disk0 [nA, nB]).bind fun s => commitMS id [nA, nB] (s.applyBlock block1)
 
-/-- Restart after the crash that follows the first atomic write of that commit. -/
-def restarted : Option MStore :=
-  first.bind fun r => openMS id (crashDisk disk0 r.2.2 1) [nA, nB]
-
-/-- **Counterexample theorem**: after a crash between the two substore batches of the first commit
-the reopened store reports version 0 (nothing committed) but substore `a` is at version 1 and already
-contains the block's write; and re-executing the block yields a commit hash different from the
-uninterrupted run's. -/
-theorem crash_first_commit_fails :
+/-- **Counterexample for the unfixed recovery**: after a crash between the two substore batches of the
+first commit the reopened store reports version 0 but substore `a` is at version 1 and already contains
+the block's write; re-executing the block yields a commit hash different from the uninterrupted run's. -/
+theorem crash_first_commit_fails_before_fix :
     (first.map fun r => (r.2.1.version, r.2.2.length)) = some (1, 3) ∧
-    (restarted.map fun s => s.lastCommitID) = some ⟨0, []⟩ ∧
-    (restarted.map fun s => (aget nA s.stores).map fun t => (t.version, toListOpt t.root)) = some (some (1, [([1], [1])])) ∧
-    (restarted.bind fun s => (commitMS id [nA, nB] (s.applyBlock block1')).map fun r => decide (r.2.1.hash = (first.map (·.2.1.hash)).getD [])) = some false := by
+    ((first.bind fun r => openMSUnfixed (crashDisk disk0 r.2.2 1) [nA, nB]).map fun s => s.lastCommitID) = some ⟨0, []⟩ ∧
+    ((first.bind fun r => openMSUnfixed (crashDisk disk0 r.2.2 1) [nA, nB]).map fun s =>
+      (aget nA s.stores).map fun t => (t.version, toListOpt t.root)) = some (some (1, [([1], [1])])) ∧
+    ((first.bind fun r => openMSUnfixed (crashDisk disk0 r.2.2 1) [nA, nB]).bind fun s =>
+      (commitMS id [nA, nB] (s.applyBlock block1')).map fun r => decide (r.2.1.hash = (first.map (·.2.1.hash)).getD [])) = some false := by
+  decide
+
+/-- The same crash with the fixed recovery: the store comes back empty at version 0 and re-executing
+block 1 (as on an empty store) reproduces the uninterrupted commit id. -/
+theorem crash_first_commit_recovers :
+    ((first.bind fun r => openMS id (crashDisk disk0 r.2.2 1) [nA, nB]).map fun s => s.lastCommitID) = some ⟨0, []⟩ ∧
+    ((first.bind fun r => openMS id (crashDisk disk0 r.2.2 1) [nA, nB]).map fun s =>
+      (aget nA s.stores).map fun t => (t.version, toListOpt t.root)) = some (some (0, [])) ∧
+    ((first.bind fun r => openMS id (crashDisk disk0 r.2.2 1) [nA, nB]).bind fun s =>
+      (commitMS id [nB, nA] (s.applyBlock block1)).map fun r => decide (r.2.1 = (first.map (·.2.1)).getD {})) = some true := by
   decide
 
 /-! ## Non-vacuity of the hypotheses: a two-substore history with different iteration orders, which
